@@ -5,10 +5,11 @@ ID = "C16"
 TITLE = "Invalid selections are rejected and valid ones accepted"
 TRANSLATORS = []
 LEAN_MODULES = ["IsoVerif.Props.C16"]
-THEOREMS = ["IsoVerif.Props.C16.C16_sound", "IsoVerif.Props.C16.C16_complete", "IsoVerif.Props.C16.C16_iff_rules",
-            "IsoVerif.Props.C16.C16_partial",
-            "IsoVerif.Props.C16.C16_witness_linked_missing", "IsoVerif.Props.C16.C16_witness_id_argument",
-            "IsoVerif.Props.C16.C16_witness_nullable_list_variable",
+THEOREMS = ["IsoVerif.Props.C16.C16_iff_rules", "IsoVerif.Props.C16.C16_sound", "IsoVerif.Props.C16.C16_complete",
+            "IsoVerif.Props.C16.C16_partial", "IsoVerif.Props.C16.C16_partial_quirkFree",
+            "IsoVerif.Props.C16.C16_witness_id_argument",
+            "IsoVerif.Props.C16.C16_fixed_witness_linked_missing", "IsoVerif.Props.C16.C16_before_fix_linked_missing",
+            "IsoVerif.Props.C16.C16_fixed_witness_nullable_list_variable", "IsoVerif.Props.C16.C16_before_fix_nullable_list_variable",
             "IsoVerif.Props.C16.C16_each_rule_undefined_field", "IsoVerif.Props.C16.C16_each_rule_object_without_selection_set",
             "IsoVerif.Props.C16.C16_each_rule_scalar_with_selection_set", "IsoVerif.Props.C16.C16_each_rule_undefined_argument",
             "IsoVerif.Props.C16.C16_each_rule_missing_argument", "IsoVerif.Props.C16.C16_each_rule_undeclared_variable",
@@ -25,14 +26,15 @@ LEVEL_TEXT = ("Kernel-checked, for every project and every choice of the three r
               "(C16_iff_rules; C16_sound / C16_complete are its two directions for the rules as implemented), and for each item of the property a selection that the validators reach and that "
               "violates the item yields a diagnostic of that item's kind (C16_each_rule_*: undefined field, object without / scalar with selection set, undefined argument, missing required "
               "argument, undeclared variable, unused variable, incompatible value or variable type, duplicate response name). The property at full strength (intended rules) is the Prop "
-              "C16_statement_at; it FAILS on the unchanged compiler in three ways, each with a kernel-checked witness and a stream of generated cases replayed against the real compiler on every "
-              "run: a required argument missing on a selection with a selection set is accepted, an undefined argument called `id` is accepted, a variable passed to an argument whose type "
-              "contains a nullable list is rejected even when the types are identical. C16_partial: wherever these three deviations do not change the validators' output, the compiler decides "
-              "the intended judgement. The transcription is tied to the Rust code by comparing diagnostic kinds on every generated project.")
+              "C16_statement_at. On the unchanged tree it failed in three ways, each with a kernel-checked witness and a stream of generated cases replayed against the real compiler on every "
+              "run; two were repaired in /repo (8835cbc: a required argument missing on a selection with a selection set is now reported; 1645c28: a variable can be passed to an argument whose "
+              "type contains a nullable list) and their witnesses now satisfy the statement (C16_fixed_witness_*, with C16_before_fix_* recording the old behaviour); one is an open finding: an "
+              "undefined argument called `id` is accepted (C16_witness_id_argument). C16_partial / C16_partial_quirkFree: wherever the deviations do not change the validators' output — in "
+              "particular on every program without an undeclared `id` argument — the compiler decides the intended judgement. The transcription is tied to the Rust code by comparing diagnostic kinds on every generated project.")
 LEVEL_NOTE = ("Trusted: Lean kernel; the hand transcription of the validators (validated by correspondence only); hx_projgen's renderer and its message-prefix table of diagnostic kinds; "
               "sets of kinds are compared, not counts or locations. Subset = what hx_projgen generates: the other validators aggregated by validate_entire_schema (entrypoint declarations, id "
               "field types, undefined types, directive deserialisation) and all parse errors are outside the model.")
-PARTIAL = ["C16_statement_at (intended rules) fails on three witnesses; C16_partial carries it under the hypothesis that the three deviations do not change the validators' output on the project",
+PARTIAL = ["C16_statement_at (intended rules) fails on one open witness (undefined argument `id`); C16_partial carries it under the hypothesis that the deviation does not change the validators' output on the project (syntactic sufficient condition: C16_partial_quirkFree)",
            "'reached by the validators' (Reach) is a hypothesis of every C16_each_rule_* theorem: a selection below one that does not resolve is never looked at by the code",
            "enum / float / list literal values have no iso syntax: the model follows the code (`todo!()` for enum literals) but no generated case exercises them",
            "object literals are only modelled against input-object types; diagnostics are compared as sets of kinds"]
